@@ -301,62 +301,59 @@ def bfs_replay(ctx, case):
         g, m = step(cls, g, m, op)
 
 
-def bfs(ctx, cls, depth, max_states):
-    start = Model(cls)
-    g0 = rc.classes()[cls]()
-    seen = {(canonical_json(start.snapshot()), fingerprint(g0))}
-    frontier = [([], start)]
-    states = 1
-    transitions = 0
-    qcount = 0
-    for level in range(depth):
+def bfs(ctx, cls, depth, max_states, roots):
+    """Breadth-first over histories that start with one of ``roots`` (first
+    operations assigned to this shard).  Every transition and, once per newly
+    discovered state, every query of the catalogue is executed on a freshly
+    rebuilt real object.  States are merged on (model snapshot, hidden
+    container fingerprint)."""
+    seen = set()
+    frontier = []
+    states = transitions = qcount = 0
+    empty = Model(cls)
+
+    def visit(hist, m, op):
+        """execute hist+[op] from state m; returns (m2 or None)"""
+        nonlocal states, transitions, qcount
+        m2 = O.apply_model(m, op)
+        g = rebuild(cls, hist)
+        case = {"cls": cls, "mode": "bfs", "ops": hist + [op]}
+        transitions += 1
+        try:
+            g2, _ = step(cls, g, m, op)
+        except Violation as v:
+            ctx.fail_now(v, case)
+            return None
+        try:
+            key = (canonical_json(m2.snapshot()), fingerprint(g2))
+        except Exception:
+            return None
+        if key in seen:
+            return None
+        seen.add(key)
+        states += 1
+        for q in enumerate_queries(m2):
+            if not O.query_available(cls, q):
+                continue
+            qcount += 1
+            gq = rebuild(cls, hist + [op])
+            try:
+                step(cls, gq, m2, ["q", q])
+            except Violation as v:
+                ctx.fail_now(v, {"cls": cls, "mode": "bfs",
+                                 "ops": hist + [op, ["q", q]]})
+        return m2
+
+    for op in roots:
+        m2 = visit([], empty, op)
+        if m2 is not None:
+            frontier.append(([op], m2))
+    for level in range(1, depth):
         nxt = []
-        for idx, (hist, m) in enumerate(frontier):
-            if idx % ctx.nshards != ctx.shard:
-                # every shard walks the same tree (deterministic) but only
-                # executes its share of the transitions of a level
-                execute = False
-            else:
-                execute = True
+        for hist, m in frontier:
             for op in enumerate_ops(m):
-                m2 = O.apply_model(m, op)
-                g = rebuild(cls, hist)
-                case = {"cls": cls, "mode": "bfs", "ops": hist + [op]}
-                if execute:
-                    transitions += 1
-                    try:
-                        g2, _ = step(cls, g, m, op)
-                    except Violation as v:
-                        ctx.fail_now(v, case)
-                        continue
-                else:
-                    try:
-                        g2 = O.apply_real(g, op)
-                        if op[0] == "relabel_inplace":
-                            g2 = g
-                    except Exception:
-                        continue
-                try:
-                    key = (canonical_json(m2.snapshot()), fingerprint(g2))
-                except Exception:
-                    continue
-                if key in seen:
-                    continue
-                seen.add(key)
-                states += 1
-                if execute:
-                    # all queries once per newly discovered state
-                    for q in enumerate_queries(m2):
-                        if not O.query_available(cls, q):
-                            continue
-                        qcount += 1
-                        gq = rebuild(cls, hist + [op])
-                        try:
-                            step(cls, gq, m2, ["q", q])
-                        except Violation as v:
-                            ctx.fail_now(v, {"cls": cls, "mode": "bfs",
-                                             "ops": hist + [op, ["q", q]]})
-                if len(seen) < max_states:
+                m2 = visit(hist, m, op)
+                if m2 is not None and len(seen) < max_states:
                     nxt.append((hist + [op], m2))
         frontier = nxt
         if not frontier:
@@ -367,18 +364,23 @@ def bfs(ctx, cls, depth, max_states):
 def run(ctx):
     # ---- explorer A
     depth = 4 if ctx.quick else 6
-    max_states = 5000 if ctx.quick else 60000
+    max_states = 2500 if ctx.quick else 30000   # per shard subtree
     tot_s = tot_t = tot_q = 0
-    for cls in ("MG", "SMG", "CRG", "SCRG"):
-        s, t, q = bfs(ctx, cls, depth, max_states)
+    jobs = [(cls, op) for cls in ("MG", "SMG", "CRG", "SCRG")
+            for op in enumerate_ops(Model(cls))]
+    mine = {}
+    for k, (cls, op) in enumerate(jobs):
+        if k % ctx.nshards == ctx.shard:
+            mine.setdefault(cls, []).append(op)
+    for cls, roots in mine.items():
+        s, t, q = bfs(ctx, cls, depth, max_states, roots)
         tot_s += s
         tot_t += t
         tot_q += q
         ctx.count(t + q, labels=(f"bfs:{cls}",), nontrivial=t + q,
                   sample={"cls": cls, "mode": "bfs", "note":
                           f"{s} states, {t} transitions, {q} queries"})
-    if ctx.shard == 0:
-        ctx.extra["states"] = tot_s         # every shard walks the same tree
+    ctx.extra["states"] = tot_s             # per shard subtree (own seen set)
     ctx.extra["transitions"] = tot_t        # executed on the real classes
     ctx.extra["bfs_queries"] = tot_q
     ctx.extra["traces_validated_against_impl"] = tot_t + tot_q
